@@ -369,7 +369,15 @@ func RunHistWorker(p Params) *Summary {
 		seed := RunSeed(p.VerifSeed, p.Prop, gi)
 		target := pickTarget(p.Prop, seed)
 		sc, faults := GenHist(seed, p.Prop, target)
+		t0 := time.Now()
 		r := Run(sc)
+		if d := time.Since(t0); d > 3*time.Second {
+			ws.sum.Probes["slow_runs_over_3s"]++
+			if ms := d.Milliseconds(); ms > ws.sum.Probes["slowest_run_ms"] {
+				ws.sum.Probes["slowest_run_ms"] = ms
+				ws.sum.Probes["slowest_run_index"] = gi
+			}
+		}
 		if i%50 == 0 || !own {
 			ws.sum.TraceHashes[fmt.Sprint(gi)] = fmt.Sprintf("%016x", r.TraceHash)
 		}
